@@ -128,6 +128,20 @@ class Sub(EventListener):
         self.table = {id(getattr(StatEvents, k)): (k, g) for k, g in EVENT_GETTER.items()}
         self.bad = []
         self.count = 0
+        self.last = {}
+
+    def settle(self):
+        """After the registering call returned: what was published for it must
+        describe the state that includes the observation."""
+        for k, (c, g) in self.last.items():
+            now = getattr(self.stat, g[0])(*g[1:])
+            same = c == now or (isinstance(c, float) and isinstance(now, float)
+                                and math.isnan(c) and math.isnan(now))
+            if not same:
+                self.bad.append("the last %s published is %r but %s() returns %r once the "
+                                "observation is registered" % (k, c, gname(g), now))
+                break
+        self.last = {}
 
     def notify(self, event):
         self.count += 1
@@ -137,6 +151,7 @@ class Sub(EventListener):
         k, g = ent
         now = getattr(self.stat, g[0])(*g[1:])
         c = event.content
+        self.last[k] = (c, g)
         same = c == now or (isinstance(c, float) and isinstance(now, float)
                             and math.isnan(c) and math.isnan(now))
         if not same:
@@ -208,6 +223,8 @@ def run(case):
                 return ("register-raised", "op #%d register(%r, %r) raised %s: %s "
                         "(previous observations %s)" % (i, op[1], op[2], type(e).__name__,
                                                         e, obs[-3:])), info
+            if sub is not None:
+                sub.settle()
             if closed_at is None:
                 if kind == "weighted" and op[1] == 0:
                     info["special"] += 1
